@@ -1874,7 +1874,9 @@ fn malformed_case(ty: &Ty, idx: usize, input: &[u8], mode: usize, loc: &mut Loc,
     if loc.sampling() && sample_slot(2, 13, 36) {
         loc.sample(format!("{} model={}", what(), match &m.res { Ok(Some(b)) => format!("Ok -> {}", hex(b)), Ok(None) => "undecided".into(), Err(()) => format!("Err({})", m.why) }));
     }
-    let budget = 4096usize.max(1024 * input.len());
+    // "unbounded" = not bounded by a constant plus a multiple of the input: a constant up-front reservation of up
+    // to 2 MiB (serde's cautious reservation uses 1 MiB) is a legitimate implementation choice
+    let budget = (2usize << 20) + 1024 * input.len();
     let resp = if batched && !input.is_empty() { ask_cached(idx, mode, input) } else { ask(idx, mode, input) };
     let (toobig, line) = match resp {
         Resp::Dead { toobig, status } => {
@@ -1892,7 +1894,7 @@ fn malformed_case(ty: &Ty, idx: usize, input: &[u8], mode: usize, loc: &mut Loc,
     let kind = it.next().unwrap_or("");
     let rest = it.next().unwrap_or("");
     let peak = peak.max(toobig.unwrap_or(0) as usize);
-    loc.check_at(&format!("{rsite}_deserialize/alloc"), peak <= budget, || format!("unbounded allocation: {}: single allocation request of {peak} bytes (budget max(4096, 1024 x input) = {budget})", what()));
+    loc.check_at(&format!("{rsite}_deserialize/alloc"), peak <= budget, || format!("unbounded allocation: {}: single allocation request of {peak} bytes (budget 2 MiB + 1024 x input = {budget})", what()));
     match kind {
         "panic" => loc.fail_at(&format!("{rsite}_deserialize/panic"), format!("{}: panic: {rest}", what())),
         "err" => {
@@ -2052,7 +2054,7 @@ fn main() {
     ctx.assume("oracle: byte-level format model and reference decoder written in the harness (Spec::enc / Spec::dec); curve points are decided by the model only for the alphabet {O, G, -2G, B (on curve, outside the subgroup)}, other point encodings are 'undecided' (generic checks only)");
     ctx.assume("64-bit target: usize/isize are encoded as 8 bytes");
     ctx.assume("containers of zero-sized elements are covered for valid values only (a huge length prefix over zero-sized elements is a long loop, not an allocation, and is outside the property)");
-    ctx.assume("allocation budget per malformed input: largest single request <= max(4096, 1024 x input length) bytes; requests above 64 MiB are refused by the child's allocator (abort = violation)");
+    ctx.assume("allocation budget per malformed input: largest single request <= 2 MiB + 1024 x input length bytes (a constant reservation is not \"unbounded\"); requests above 64 MiB are refused by the child's allocator (abort = violation)");
     ctx.bound("sequence_lengths", if thorough { "all lengths <= 4 over 3-value alphabets (points: 4-value alphabet incl. an out-of-subgroup point)" } else { "all lengths <= 3 over 3-value alphabets (points: 4-value alphabet incl. an out-of-subgroup point)" });
     ctx.bound("large_values", "Vec<u8> of 300 and 70000 bytes, Vec<u16>/VecDeque<u16> (wrapped ring buffer)/LinkedList<u16> of 500..1000 elements, Vec<G1Affine> of 33 points (one variant with a single out-of-subgroup point), 600-char String, full 256-key map/set, BigUint 2^5000");
     ctx.bound("modes", "2 x 2 (Compress x Validate) for every value and every malformed input");
